@@ -121,7 +121,9 @@ class Ctx:
         self.solver.push()
         try:
             if timeout is not None:
-                self.solver.set("timeout", timeout)
+                # an obligation first gets a short slice on the incremental solver; queries that go astray (the unstable ones: same
+                # formula, seconds or minutes depending on the search order) are then retried below on fresh solvers with other seeds
+                self.solver.set("timeout", min(timeout, 20000))
             for e in extra:
                 self.solver.add(e)
             r = self.solver.check()
@@ -131,6 +133,24 @@ class Ctx:
             self.solver.pop()
             if timeout is not None:
                 self.solver.set("timeout", self.branch_timeout_ms)
+        if r == z3.unknown and timeout is not None:
+            left = timeout - (time.time() - t0) * 1000
+            for attempt, seed in enumerate((7, 101, 4242, 90001)):
+                if left <= 1000:
+                    break
+                so = z3.Solver()
+                so.set("random_seed", seed)
+                slice_ms = int(min(left, 20000 * (attempt + 1)))
+                so.set("timeout", slice_ms)
+                so.add(*self.pc)
+                so.add(*extra)
+                t1 = time.time()
+                r2 = so.check()
+                left -= (time.time() - t1) * 1000
+                if r2 != z3.unknown:
+                    r, m, reason = r2, (so.model() if r2 == z3.sat else None), ""
+                    break
+                reason = so.reason_unknown()
         self.solver_ms += (time.time() - t0) * 1000
         self.nchecks += 1
         return r, m, reason
